@@ -41,20 +41,37 @@ def build(ctx):
     site = NODE + ".build"
     tr = static_trace(ctx, NODE, "build")
     data, depth = P("data"), P("depth")
-    loc = {}
-    for e in tr.of("local"):
-        if len(e.stack) == 1:
-            loc.setdefault(e.name, e.value)
     n = q.sub(atom(("getattr", data, "shape")), 0)
     m = q.sub(atom(("getattr", data, "shape")), 1)
     axis = atom(("mod", depth, m))
-    ctx.ob("FRM", site, "axis cycles with depth (axis = depth mod number of columns)", loc.get("axis") == axis, q.short(loc.get("axis"), 80) if loc.get("axis") is not None else "")
     c = col(data, axis)
     mn = atom(("call", "numpy.min", (c,), ()))
     ptp = atom(("call", "numpy.ptp", (c,), ()))
     mid = mn + ptp / const(2)
-    ctx.ob("FRM", site, "split at the midpoint of the range of the points held (min + ptp/2)", loc.get("midpoint_at_axis") is not None and T.same(loc["midpoint_at_axis"], mid),
-           q.short(loc.get("midpoint_at_axis"), 160) if loc.get("midpoint_at_axis") is not None else "")
+    # the axis and the split value actually used are read off the row masks of the recursive calls
+    used_axis = used_mid = None
+    for e in rec_calls(tr, site):
+        a0 = e.args[0].single_atom() if e.args else None
+        if a0 is None or a0[0] != "sub" or a0[1] != data:
+            continue
+        cm = q.is_cmp(a0[2])
+        if cm is None:
+            continue
+        cols = [x for x in cm[2].atoms() if x[0] == "sub" and x[1] == data]
+        if len(cols) != 1:
+            continue
+        ia = cols[0][2].single_atom()
+        if ia is None or ia[0] != "tuple" or len(ia[1]) != 2:
+            continue
+        used_axis = ia[1][1]
+        coef = [cf for mm, cf in cm[2].num if mm == ((cols[0], 1),)]
+        if coef and coef[0] == 1:
+            used_mid = atom(cols[0]) - cm[2]
+        elif coef and coef[0] == -1:
+            used_mid = cm[2] + atom(cols[0])
+    ctx.ob("FRM", site, "axis cycles with depth (axis = depth mod number of columns)", used_axis == axis, q.short(used_axis, 80) if used_axis is not None else "")
+    ctx.ob("FRM", site, "split at the midpoint of the range of the points held (min + ptp/2)", used_mid is not None and T.same(used_mid, mid),
+           q.short(used_mid, 160) if used_mid is not None else "")
     rc = rec_calls(tr, site)
     ctx.anchor(site, "two recursive calls", len(rc) == 2, "found %d" % len(rc))
     leafnew = [e for e in tr.calls() if e.callee == ("new", NODE) and len(e.stack) == 1]
